@@ -216,6 +216,8 @@ func main() {
 				runDRules(w, r, "D1")
 			case "C08":
 				runDRules(w, r, "D1", "D2")
+			case "C18":
+				runDRules(w, r, "D3")
 			}
 		}
 		if st := r.Finish(vdir, cmd); st != 0 {
